@@ -33,6 +33,8 @@ def gen(ctx):
         if rng.random() < 0.3:
             # the net was trained on other patterns before: train() SETS the weights, it does not accumulate
             c["pre"] = [[rng.choice([-1, 1]) for _ in range(N)] for _ in range(rng.randint(1, 3))]
+        if rng.random() < 0.3:
+            c["scribble"] = 1
         yield c
     for N in ([129, 131] if ctx.tier == "quick" else [129, 131, 255, 257, 301]):
         # sizes at which N-1 no longer fits an int8 / the weighted input of a stored pattern is +-(N-1)
@@ -45,6 +47,9 @@ def gen(ctx):
         c = dict(kind="train", P=[[rng.choice([-1, 1]) for _ in range(N)] for _ in range(rng.randint(1, 5))])
         if rng.random() < 0.4:
             c["pre"] = [[rng.choice([-1, 1]) for _ in range(N)] for _ in range(rng.randint(1, 3))]
+        if rng.random() < 0.4:
+            c["scribble"] = 1
+            c["aslist"] = int(rng.random() < 0.5)
         yield c
 
 
@@ -66,7 +71,12 @@ def run(c):
         net = cpl.HopfieldNet(len(c["P"][0]))
         if c.get("pre"):
             net.train(np.array(c["pre"]))
-        net.train(np.array(c["P"]))
+        Parg = np.array(c["P"]) if not c.get("aslist") else [list(p) for p in c["P"]]
+        net.train(Parg)
+        if c.get("scribble"):
+            for p in Parg:
+                for i in range(len(p)):
+                    p[i] = -p[i] if i % 2 else p[i]
         return net, None, None
     saved = np.random.shuffle
     fs = FakeShuffle(c["seed"])
@@ -77,7 +87,13 @@ def run(c):
         pd = c.get("pdtype", "int64")
         if c.get("pre"):
             net.train(np.array(c["pre"]))
-        net.train(c["P"] if pd == "list" else np.array(c["P"], dtype=pd))
+        Parg = [list(p) for p in c["P"]] if pd == "list" else np.array(c["P"], dtype=pd)
+        net.train(Parg)
+        if c.get("scribble"):
+            # the caller reuses its pattern container (e.g. to build a noisy probe): the net learned what it was GIVEN
+            for p in Parg:
+                for i in range(len(p)):
+                    p[i] = -p[i] if i % 2 else p[i]
         ca = np.array([c["init"]], dtype=c.get("sdtype", "int32"))
         res = cpl.evolve(ca, timesteps=c["T"], apply_rule=net.apply_rule, r=net.r)
         return net, res, fs
